@@ -49,12 +49,15 @@ pub enum MOp {
     Detach(u16),
     /// advance the virtual clock by this many ms (used by the rate-limited configurations)
     Wait(u32),
+    /// the terminal now reports this many rows (1..=the rows it was created with; C19 only)
+    Resize(u8),
 }
 
 #[derive(Debug, Clone, Serialize, Deserialize)]
 pub struct MultiCase {
     pub rows: u8,
-    pub cols: u8,
+    /// (u16: C19 also uses terminals wider than 255 columns)
+    pub cols: u16,
     /// refresh rate of the MultiProgress target (None = unlimited)
     pub hz: Option<u8>,
     /// ms the virtual clock advances before every op (0 = frozen clock: limiters stay exhausted)
@@ -702,6 +705,17 @@ impl Interp {
                     paint = false;
                 }
             }
+            MOp::Resize(r) => {
+                let grid_rows = self.vt.lock().grid.rows;
+                let r = (*r as usize).clamp(1, grid_rows);
+                self.vt.lock().report_rows = Some(r as u16);
+                self.rows = r;
+                if let Some(f) = &mut self.model.fit {
+                    f.0 = r;
+                }
+                paint = false;
+                out.note = "resize";
+            }
             MOp::SetAlignment(b) => {
                 mp.set_alignment(if *b { MultiProgressAlignment::Bottom } else { MultiProgressAlignment::Top });
                 self.model.bottom = *b;
@@ -916,5 +930,5 @@ pub fn decode_multi(u: &mut FuzzInput, flavour: u8) -> MultiCase {
         ops.push(decode_mop(u, cols as usize, flavour));
     }
     let final_drops = (0..8).map(|i| (i as u16).wrapping_mul(8191)).collect();
-    MultiCase { rows, cols, hz, step_ms, ops, final_drops }
+    MultiCase { rows, cols: cols as u16, hz, step_ms, ops, final_drops }
 }
